@@ -107,6 +107,35 @@ def check_bounds(case, spec, r, ck):
             case.check('steps.coarse_volume_per_fine_step_within_rate', okf, nonvacuous=uneq, asset=a['name'], cls=a['type'], freq=a.get('freq'), bad=badf)
         case.check('steps.bounds_are_rate_times_elapsed', ok, asset=a['name'], cls=a['type'], coarse=bool(a.get('freq')), bad=bad)
         case.check('steps.unequal_steps_bounds', ok, nonvacuous=uneq, asset=a['name'], cls=a['type'], coarse=bool(a.get('freq')), bad=bad)
+        if a['type'] == 'Storage' and a.get('cost_store') and not a.get('freq') and a.get('max_store_duration') is None and not a.get('no_simult_in_out') \
+                and not a.get('block_size'):
+            # per-time cost: the holding cost enters the cost vector as cost_store x (real length of every later step) x discount.
+            # Observed relationally: the same storage built without holding cost gives c0; (c - c0) of the variable at step t must be
+            # -(eff_in for the charging variable) * sum_{s >= t in window} cost_store * dt_s * disc_s, dt from the UTC clock.
+            try:
+                from ..spec import Built, build_asset, build_timegrid
+                with attach.paused(), env.quiet():
+                    a0 = dict(a, cost_store=0.)
+                    o0 = build_asset(a0, Built(), spec['grid'].get('tz'))
+                    s0 = Snap(o0.setup_optim_problem({k: np.asarray(v, float) for k, v in spec['prices'].items()}, build_timegrid(spec['grid'])))
+                if len(s0.c) == len(s.c):
+                    W = ck.window(a.get('start'), a.get('end'))
+                    disc = ck.disc(a.get('wacc', 0.))
+                    per = np.zeros(ck.T); per[W] = a['cost_store'] * ck.dt[W] * disc[W]
+                    tail = np.cumsum(per[::-1])[::-1]
+                    okc = True; badc = None
+                    for i in range(len(s.c)):
+                        nm = vn.get(i)
+                        if nm not in ('disp', 'disp_in', 'disp_out'):
+                            continue
+                        want = -(a.get('eff_in', 1.) if nm == 'disp_in' else 1.) * tail[tfirst[i]]
+                        got = float(s.c[i] - s0.c[i])
+                        if abs(got - want) > 1e-9 * (1 + abs(want)):
+                            okc = False; badc = {'var': i, 'name': nm, 'step': int(tfirst[i]), 'holding_cost_coefficient': got, 'want': float(want)}
+                            break
+                    case.check('steps.holding_cost_is_rate_times_elapsed', okc, nonvacuous=uneq, asset=a['name'], bad=badc, cost_store=a['cost_store'])
+            except Exception as e:
+                case.event('holding_cost_probe_failed:' + type(e).__name__)
         if a['type'] == 'Storage' and a.get('inflow'):
             # total inflow over the window = rate x elapsed time: visible in the last level row (end - start - total inflow)
             W = ck.window(a.get('start'), a.get('end'))
